@@ -350,11 +350,11 @@ def run(ctx):
     if ctx.thorough:
         lib.coqchk(ctx, "C03")
     ctx.rule = ("real send_initialize / send_initialize_with_client_tracking on anyio memory streams against a scripted peer, virtual "
-                "clock. configs = every ordered list of 1..3 distinct versions from a 6-version universe (3 real, 3 invented) + 4 "
+                "clock. configs = every ordered list of 1..3 distinct versions from a 7-version universe (3 real; 4 invented: a later date, a date-shaped string that is no calendar day, the day before the newest, a non-date string) + 4 "
                 "lists with repeats + the library default (None), x preferred in {absent, each universe member}. answers = each "
-                "universe member; 21 malformed results (non-string version x6, missing/ill-typed members, non-object results, "
+                "universe member, and offered versions with white space around them; 21 malformed results (non-string version x6, missing/ill-typed members, non-object results, "
                 "envelope fallback, peer closes before the notification); JSON-RPC errors of every named code and 20 further "
-                "codes with and without 'protocol version' + 19 boundary messages on -32602; silence / late answer / closed "
+                "codes with and without 'protocol version' + 19 boundary messages on -32602 + rejections carrying data.supported from a peer that WOULD answer a second initialize; silence / late answer / closed "
                 "stream / only foreign ids; rotating noise prefixes (notification, foreign id, same-id server request, batch) and "
                 "timeouts. quick: configs x (version + malformed) in full, errors and no-answer kinds rotated over the configs (8+1 "
                 "per config); thorough/escalated: the full product in both variants (exhaustive=true). Observed: every message on "
